@@ -358,8 +358,20 @@ def kf_import_chain(w: Dict[str, Any]) -> bool:
     return chain >= 100
 
 
+def kf_long_name(w: Dict[str, Any]) -> bool:
+    """Known finding: pages are named after the qualified name of the object; a class or module whose qualified name plus '.html'
+    is longer than the file system allows for one file name (255 bytes) cannot be written: OSError ENAMETOOLONG."""
+    import re
+    exc = w.get("exception", "")
+    if not (exc.startswith("OSError") and "File name too long" in exc):
+        return False
+    return any(isinstance(t, str) and re.search(r"\bclass\s+\w{200,}", t) for t in w["job"]["files"].values()) or \
+        any(len(Path(rel).stem) >= 200 for rel in w["job"]["files"])
+
+
 def run(ctx: Ctx) -> int:
     rng = random.Random(ctx.seed)
+    ctx.register_matcher("page-file-name-too-long", kf_long_name)
     ctx.register_matcher("expression-nested-deeper-than-recursion-limit", kf_deep_expression)
     ctx.register_matcher("import-chain-deeper-than-recursion-limit", kf_import_chain)
     # ---- spec -> code
